@@ -5,8 +5,9 @@
    The hash is abstract: md_map_sh256 is replaced by the view md_map_sh256_df that appends one record to a ghost transcript per call -
    the message length, the first five message bytes (counter, bits_to_return), the message byte at the ghost position 5 + g15_j (g15_j is
    nondeterministic and never written: every position of the input string) - and returns the ghost digest g15_ho[k] of call k (never written:
-   arbitrary).  rand_hash is proved against a contract over that transcript (units c15x.rand_hash.*), rand_seed against the same transcript with
-   rand_hash replaced by that contract (unit c15x.rand_seed.df). */
+   arbitrary).  rand_hash is proved against a contract over that transcript (units c15x.rand_hash.v55 / .ctx: the two calls rand_seed makes), rand_seed
+   against the same transcript with the REAL rand_hash inlined (unit c15x.rand_seed.df; replacing rand_hash by its contract there ran out of memory:
+   the replaced call havocs a slice of the 944 KB context object through a non-constant pointer). */
 #pragma once
 #include "rand.h"       /* needs -DVC_CTX_RAND; gives g_ctx with the generator state, vc_h256, vc_h32 */
 
